@@ -6,9 +6,9 @@ impl From<SendError> for ActorError { fn from(e: SendError) -> (r: Self) { Actor
 pub enum Payload<A> { Task(core::marker::PhantomData<A>), Stop, Restart }
 pub open spec fn ppid<A>(p: &Payload<A>) -> int { match p { Payload::Task(_) => 0int, Payload::Stop => -1int, Payload::Restart => -2int } }
 impl<A> ArcForceTx<A> {
-    // ForceTxFn::send (contract proved in unit chan)
+    // ForceTxFn::send (contract proved in unit chan); the trait method returns the crate`s Result, i.e. an ActorError
     #[verifier::external_body]
-    pub fn send(&self, msg: Payload<A>, Tracked(w): Tracked<&mut World>) -> (r: Result<(), SendError>)
+    pub fn send(&self, msg: Payload<A>, Tracked(w): Tracked<&mut World>) -> (r: Result<(), ActorError>)
         ensures r is Ok ==> final(w).trace == old(w).trace.push(Ev::Enq { chan: self.chan(), pid: ppid(&msg), force: true }), r is Err ==> final(w).trace == old(w).trace,
                 final(w).aborted == old(w).aborted && final(w).bg == old(w).bg && final(w).lc == old(w).lc
     { unimplemented!() }
